@@ -69,6 +69,8 @@ Proof.
   set (pms := map classify_mod (removelast mods)) in *.
   destruct (eval_expr e v pms) as [[d s]|] eqn:Hev.
   - apply word_tree_preserves with (d := d) (s := s); auto.
+    + (* no nested reference in the literal: mkCondModifierPatternLiteral has no '$' *)
+      apply lit_pattern_no_dollar. exact Hlit.
     + (* the literal is compared as a string: quoted, or not a number *)
       destruct (numeric_head pat) eqn:En.
       * left. unfold needs_quotes. rewrite En. rewrite !orb_true_r. reflexivity.
@@ -146,7 +148,7 @@ Theorem match_rewrite_equivalent cx v mods fe neg rw e :
        equivalent e f t).
 Proof.
   intros Hin. destruct (simplify_match_inv _ _ _ _ _ _ Hin)
-    as (pat & Hlast & Hne & Hfe & Hdef & Hpne & _ & Hf & Ht).
+    as (pat & Hlast & Hne & Hfe & Hdef & Hpne & _ & _ & Hf & Ht).
   do 3 eexists. split; [exact Hf|]. split; [exact Ht|]. split; [exact Hlast|].
   intros Hv d r Hev Hsp Hmay.
   apply match_tree_equivalent with (d := d) (r := r); auto.
@@ -314,7 +316,11 @@ Proof.
   intros Hin. destruct (match_rewrite_equivalent cx v mods fe neg rw e Hin) as (f & t & pat & Hf & Ht & Hl & H).
   exists f, t, pat. split; [exact Hf|]. split; [exact Ht|]. split; [exact Hl|].
   intros Hv d s Hev Hcl Hnum.
+  assert (Hnd : no_dollar pat = true).
+  { destruct (simplify_match_inv _ _ _ _ _ _ Hin) as (pat' & Hl' & _ & _ & _ & _ & Hnd & _).
+    rewrite Hl in Hl'. injection Hl' as <-. exact Hnd. }
   pose proof (eval_expr_snoc e v _ (ModM pat) d s Hev) as Hlast. cbn [apply_mod] in Hlast.
+  rewrite (expand_pat_literal e pat Hnd) in Hlast.
   apply (H Hv d _ Hlast).
   - apply (match_result_head (fun w => str_match w pat) s Hcl).
   - intros Hm. apply (match_result_bare pat s Hcl (Hnum Hm)).
